@@ -63,6 +63,17 @@ def r1_axis_roles(ctx):
     ctx.check(ok, "calcAM (partition-vector form): column `direc` is the boundary force cbtf needs for a unit acceleration of boundary DOF `direc`", fn)
     ok = "ifbdof.ndim==2:" in t
     ctx.check(ok, "calcAM: a 2-D boundary definition is a recovery matrix, a 1-D one a partition vector", fn, nontrivial=False)
+    # the partition-vector route relies on cbtf returning the force for the ENFORCED acceleration at every frequency, 0 Hz included
+    # (there the apparent mass is the physical rigid-body mass): the boundary acceleration must be the input, not derived from displacement
+    cf = ctx.src.func(CB, "cbtf")
+    stores = {ast.unparse(s_.targets[0]).replace(" ", ""): ast.unparse(s_.value).replace(" ", "") for s_ in ast.walk(cf)
+              if isinstance(s_, ast.Assign) and isinstance(s_.targets[0], ast.Subscript)}
+    ok = stores.get("accel[bset]") == "a" and stores.get("accel[qset]") == "sol.a"
+    ctx.check(ok, "cb.cbtf (used by calcAM): boundary rows of the acceleration are the enforced acceleration itself, so the boundary force at 0 Hz is M_bb a "
+                  "(rigid-body mass), not zero", cf, {k: v for k, v in stores.items() if k.startswith("accel")})
+    tt = ast.unparse(cf).replace(" ", "")
+    ok = "frc=m[bset]@accel+b[bset]@veloc+k[bb]@displ[bset]" in tt
+    ctx.check(ok, "cb.cbtf: the boundary force is formed from that acceleration", cf)
 
 
 def r2_ntfl(ctx):
@@ -124,7 +135,7 @@ def r2_ntfl(ctx):
 
 
 RULES = [
-    ("C15-R1", r1_axis_roles, 13),
+    ("C15-R1", r1_axis_roles, 15),
     ("C15-R2", r2_ntfl, 9),
 ]
 LEVEL = "other"
